@@ -15,7 +15,7 @@ CFG = {
     "assumptions": ["parameter values < 2^63 in the round-trip theorems and in the oracle (Go int wrap-around is modelled but not judged)"],
     "level_text": "Proved for all states/runes/streams: regenerated transition table = Williams VT500 table + extensions (all 16 state functions x every rune and eof); "
                   "hand model = regenerated table; CSI/ESC/SS3/OSC/DCS/APC round trips from any state with exactly-once delivery; parameter codec inverse for all "
-                  "parameter lists with sub-parameters; invariant (exit function matches state, ST flag only in strings/escape), no panic, malformed sequences deliver "
+                  "parameter lists with sub-parameters; invariant (exit function matches state, ST flag only in strings/escape), no panic, no leak of left-over intermediates/parameters, malformed sequences deliver "
                   "nothing; rune-level text order; text conservation and read-split independence through the reading side for printable ASCII with any cluster oracle. Multi-byte level (UTF-8 fallback, grapheme look-ahead, read boundaries): correspondence + Spec oracle.",
     "level_note": "Proved: see notes/C02.md table. Validated by correspondence only: action bodies, reading side (ParserIO). False with witness (recorded findings): "
                   "F102 ST of an empty string delivered, F102c C0 inside ST, F102d invalid byte after a Prepend character -> U+FFFD. Fixed in /repo: F05, F07, F102b.",
